@@ -14,6 +14,7 @@ package main
 import (
 	"fmt"
 	"sort"
+	"strconv"
 	"strings"
 )
 
@@ -290,8 +291,60 @@ type txbGen struct {
 	nReq    int
 	drafts  int
 	scale   int64
-	reorged bool // the node reorganised and the wallet has not been told everything yet
-	remined bool // … and a transaction of a replaced block was mined again on the new branch
+	reorged bool           // the node reorganised and the wallet has not been told everything yet
+	remined bool           // … and a transaction of a replaced block was mined again on the new branch
+	amts    map[int64]bool // amounts of all outputs paid to wallet addresses so far (see uniqAmounts)
+}
+
+func newTxbGen(l *ledGen, scale int64) *txbGen {
+	t := &txbGen{ledGen: l, scale: scale, amts: map[int64]bool{}}
+	l.fixTx = t.uniqAmounts
+	return t
+}
+
+// uniqAmounts (hook of ledGen.define: every transaction of a txb history passes here before it is emitted)
+// keeps the amounts of all outputs paid to wallet addresses pairwise distinct within a history.  Which of
+// two coins of EQUAL amount the wallet selects depends on the order of their transaction hashes (bucket
+// iteration order, unstable sort), which symbolic names cannot predict: the model and the implementation
+// then reserve different – equally admissible – coins and every later `reserved` / `elig` observation
+// differs (thorough tier, seed 1: a binding deposit of half the inputs next to a payment of the other half,
+// later withdrawn without fee to another address of the same wallet).  Deposits count too: their
+// withdrawal without fee pays the same amount again.  A colliding amount is lowered to the next free one
+// (the transaction stays valid: the fee grows by the difference; 0 = an output that is no coin at all); no
+// randomness is consumed.
+func (t *txbGen) uniqAmounts(x *gTx) {
+	changed := false
+	for i, spec := range x.outs {
+		p := strings.Split(spec, ":")
+		if len(p) < 2 || t.owner[p[0]] == "" {
+			continue
+		}
+		a, err := strconv.ParseInt(p[1], 10, 64)
+		if err != nil || a <= 0 {
+			continue
+		}
+		b := a
+		for b > 0 && t.amts[b] {
+			b--
+		}
+		// b == 0 (amounts of a few maxwell, all taken): a zero-value output, which no wallet tracks as a coin
+		if b > 0 {
+			t.amts[b] = true
+		}
+		if b != a {
+			p[1] = strconv.FormatInt(b, 10)
+			x.outs[i] = strings.Join(p, ":")
+			changed = true
+			t.g.Stats["txb-amount-tie-avoided"]++
+		}
+	}
+	if changed {
+		f := strings.SplitN(x.line, " ", 5) // tx NAME NONCE INS OUTS
+		if len(f) == 5 {
+			f[4] = strings.Join(x.outs, ";")
+			x.line = strings.Join(f, " ")
+		}
+	}
 }
 
 // block builds a valid block on `parent` like ledGen.buildBlock, with realistic coinbase amounts.
@@ -936,7 +989,7 @@ func (t *txbGen) burst() {
 
 func genTxbHistory(g *Gen, kind string) {
 	l := newLedGen(g, "txb")
-	t := &txbGen{ledGen: l, scale: 100000000}
+	t := newTxbGen(l, 100000000)
 	if kind == "" && g.Rng.Intn(3) == 0 {
 		t.scale = 1000000 // poor wallets: fees matter
 	}
@@ -1065,7 +1118,7 @@ func (t *txbGen) plainBlock(cbDest string, cbAmt int64, txs ...*gTx) *gBlock {
 // reservation), then as a real draft.
 func genTxbSweep(g *Gen, n, payload int, userFee int64) {
 	l := newLedGen(g, "txb")
-	t := &txbGen{ledGen: l, scale: 100000000}
+	t := newTxbGen(l, 100000000)
 	l.maxAddr = 8
 	l.start(1)
 	w := l.wallets[0]
@@ -1157,6 +1210,10 @@ func genTxb(g *Gen) {
 	genTxbSweeps(g)
 	n := g.Scale(70, 1400)
 	for h := 0; h < n; h++ {
+		if h%14 == 9 { // stale wallet, same block-file offsets (gen_stale_same.go)
+			genStaleSame(g)
+			continue
+		}
 		kind := ""
 		switch {
 		case h%10 == 3:
